@@ -136,6 +136,9 @@ def main(argv=None):
     seed = int(os.environ.get('VERIF_SEED', '0') or 0)
     t0 = time.time()
     prop = a.prop
+    import glob
+    for old in glob.glob(os.path.join(VERIF, 'replays', f'{prop}-*.json')):
+        os.remove(old)       # replay files are per run
     modname = 'contracts.' + prop
     try:
         mod = importlib.import_module(modname)
